@@ -217,13 +217,28 @@ theorem remove_buckets (c : HCfg) (t : HashTable) (key : Key) (m : Mem) (h : t.I
     simp only
     rw [hch]
 
-/-- `cc_hashtable_iter_remove` is `cc_hashtable_remove` of the entry just yielded; the cursor still
-stands in front of the same pending entries (none of which has the removed key) -/
+/-- `ItInv` does not look at `prev_entry` -/
+theorem ItInv_prev (t : HashTable) (it : HIter) (todo : List Entry) (p : Option (Option Nat)) :
+    ItInv t { it with prev := p } todo ↔ ItInv t it todo := by
+  unfold ItInv; exact Iff.rfl
+
+/-- `cc_hashtable_iter_remove` with no yielded entry at hand (before the first `next`, or after the
+yielded entry was already removed through the iterator): `CC_ERR_KEY_NOT_FOUND`, everything unchanged -/
+theorem iterRemove_no_prev (c : HCfg) (t : HashTable) (it : HIter) (m : Mem) (hp : it.prev = none) :
+    t.iterRemove c it m = (.errKeyNotFound, none, t, it, m) := by
+  unfold iterRemove; rw [hp]
+
+/-- `cc_hashtable_iter_remove` is `cc_hashtable_remove` of the entry just yielded, after which
+`prev_entry` is NULL; the cursor still stands in front of the same pending entries (none of which has
+the removed key) -/
 theorem iterRemove_spec (c : HCfg) (t : HashTable) (it : HIter) (m : Mem) (todo : List Entry) (k : Key)
     (h : t.Inv c) (hit : ItInv t it todo) (hp : it.prev = some k) (hk : ∀ e ∈ todo, e.key ≠ k) :
-    t.iterRemove c it m = t.remove c k m ∧ ItInv (t.remove c k m).2.2.1 it todo := by
+    ((t.iterRemove c it m).1 = (t.remove c k m).1 ∧ (t.iterRemove c it m).2.1 = (t.remove c k m).2.1 ∧
+     (t.iterRemove c it m).2.2.1 = (t.remove c k m).2.2.1 ∧ (t.iterRemove c it m).2.2.2.2 = (t.remove c k m).2.2.2 ∧
+     (t.iterRemove c it m).2.2.2.1 = (if (t.remove c k m).1 = .ok then { it with prev := none } else it)) ∧
+    ItInv (t.remove c k m).2.2.1 it todo := by
   constructor
-  · unfold iterRemove; rw [hp]
+  · unfold iterRemove; rw [hp]; exact ⟨rfl, rfl, rfl, rfl, rfl⟩
   have hb := remove_buckets c t k m h
   obtain ⟨hcap, hlen, hsize, hok, hnd, hthr⟩ := h
   have hi := index_lt t (keyHash c k) hcap
@@ -287,9 +302,10 @@ def drive (c : HCfg) : List Bool → HashTable → HIter → Mem → List Entry 
     match r.2.1 with
     | none => ([], t, r.2.2.1, r.2.2.2)
     | some e =>
-      let q : HashTable × Mem :=
-        if b then ((t.iterRemove c r.2.2.1 r.2.2.2).2.2.1, (t.iterRemove c r.2.2.1 r.2.2.2).2.2.2) else (t, r.2.2.2)
-      let rest := drive c bs q.1 r.2.2.1 q.2
+      let q : HashTable × HIter × Mem :=
+        if b then ((t.iterRemove c r.2.2.1 r.2.2.2).2.2.1, (t.iterRemove c r.2.2.1 r.2.2.2).2.2.2.1,
+                   (t.iterRemove c r.2.2.1 r.2.2.2).2.2.2.2) else (t, r.2.2.1, r.2.2.2)
+      let rest := drive c bs q.1 q.2.1 q.2.2
       (e :: rest.1, rest.2)
 
 /-- keys removed by a program: those of the yielded entries whose flag is set -/
@@ -311,17 +327,18 @@ theorem ItInv_mem (t : HashTable) (it : HIter) (e : Entry) (rest : List Entry) (
     rw [this, htodo.1]; simp
 
 theorem drive_spec (c : HCfg) (bs : List Bool) (t : HashTable) (it : HIter) (m : Mem) (todo : List Entry)
-    (h : t.Inv c) (hit : ItInv t it todo) (hnd : (todo.map (·.key)).Nodup) (hl : t.size + 2 ≤ m.live) :
+    (h : t.Inv c) (hit : ItInv t it todo) (hnd : (todo.map (·.key)).Nodup) (hl : t.size + 2 ≤ liveOf m t.triple) :
     (drive c bs t it m).1 = todo.take bs.length ∧
     (drive c bs t it m).2.1.Inv c ∧
     (drive c bs t it m).2.1.abs = t.abs.filter (fun p => !(removedKeys todo bs).contains p.1) ∧
     ItInv (drive c bs t it m).2.1 (drive c bs t it m).2.2.1 (todo.drop bs.length) ∧
     (drive c bs t it m).2.2.2.fault = m.fault ∧
-    (drive c bs t it m).2.2.2.live + (removedKeys todo bs).length = m.live ∧
-    (drive c bs t it m).2.1.size + (removedKeys todo bs).length = t.size := by
+    liveOf (drive c bs t it m).2.2.2 t.triple + (removedKeys todo bs).length = liveOf m t.triple ∧
+    (drive c bs t it m).2.1.size + (removedKeys todo bs).length = t.size ∧
+    (drive c bs t it m).2.1.triple = t.triple := by
   induction bs generalizing t it m todo with
   | nil =>
-    refine ⟨by simp [drive], h, ?_, by simpa [drive] using hit, rfl, by simp [drive, removedKeys], by simp [drive, removedKeys]⟩
+    refine ⟨by simp [drive], h, ?_, by simpa [drive] using hit, rfl, by simp [drive, removedKeys], by simp [drive, removedKeys], rfl⟩
     simp only [drive]
     have : removedKeys todo [] = [] := by cases todo <;> rfl
     rw [this]; simp only [List.contains_nil, Bool.not_false]; exact (List.filter_eq_self.mpr (fun _ _ => rfl)).symm
@@ -331,7 +348,7 @@ theorem drive_spec (c : HCfg) (bs : List Bool) (t : HashTable) (it : HIter) (m :
     | nil =>
       have := n1 rfl
       simp only [drive, this]
-      refine ⟨by simp, h, ?_, by simpa using hit, trivial, by simp [removedKeys], by simp [removedKeys]⟩
+      refine ⟨by simp, h, ?_, by simpa using hit, trivial, by simp [removedKeys], by simp [removedKeys], trivial⟩
       simp only [removedKeys, List.contains_nil, Bool.not_false]; exact (List.filter_eq_self.mpr (fun _ _ => rfl)).symm
     | cons e rest =>
       obtain ⟨s1, s2, s3, s4, s5⟩ := n2 e rest rfl
@@ -345,24 +362,26 @@ theorem drive_spec (c : HCfg) (bs : List Bool) (t : HashTable) (it : HIter) (m :
       cases b with
       | false =>
         simp only [Bool.false_eq_true, if_false]
-        obtain ⟨r1, r2, r3, r4, r5, r6, r7⟩ := ih t (t.iterNext it m).2.2.1 m rest h s5 hnd' hl
-        refine ⟨by simp [r1], r2, ?_, by simpa using r4, r5, ?_, ?_⟩
+        obtain ⟨r1, r2, r3, r4, r5, r6, r7, r8⟩ := ih t (t.iterNext it m).2.2.1 m rest h s5 hnd' hl
+        refine ⟨by simp [r1], r2, ?_, by simpa using r4, r5, ?_, ?_, r8⟩
         · rw [r3]; simp [removedKeys]
         · simpa [removedKeys] using r6
         · simpa [removedKeys] using r7
       | true =>
         simp only [if_true]
-        obtain ⟨q1, q2⟩ := iterRemove_spec c t (t.iterNext it m).2.2.1 m rest e.key h s5 s4 hne
-        rw [q1]
-        obtain ⟨p1, p2, p3, p4, p5, p6, p7, p8, p9⟩ := remove_spec c t e.key m h (by omega)
+        obtain ⟨⟨_, _, q13, q14, q15⟩, q2⟩ := iterRemove_spec c t (t.iterNext it m).2.2.1 m rest e.key h s5 s4 hne
+        have hcont : Map.contains t.abs e.key = true := (contains_abs_iff t e.key).mpr ⟨e, ItInv_mem t it e rest hit, rfl⟩
+        obtain ⟨p1, p2, p3, p4, p5, p6, p7, p8, p9, p10⟩ := remove_spec c t e.key m h (fun _ => by omega)
         have hfound : (t.remove c e.key m).1 = .ok := by
           rw [p4]
-          have : Map.contains t.abs e.key = true := (contains_abs_iff t e.key).mpr ⟨e, ItInv_mem t it e rest hit, rfl⟩
-          unfold Map.contains at this
-          rw [if_pos this]
+          unfold Map.contains at hcont
+          rw [if_pos hcont]
+        rw [q13, q14, q15, if_pos hfound]
         obtain ⟨p6a, p6b⟩ := p6 hfound
-        obtain ⟨r1, r2, r3, r4, r5, r6, r7⟩ := ih (t.remove c e.key m).2.2.1 (t.iterNext it m).2.2.1 (t.remove c e.key m).2.2.2 rest p1 q2 hnd' (by omega)
-        refine ⟨by simp [r1], r2, ?_, by simpa using r4, by rw [r5, p7], ?_, ?_⟩
+        have q2' := (ItInv_prev (t.remove c e.key m).2.2.1 (t.iterNext it m).2.2.1 rest none).mpr q2
+        obtain ⟨r1, r2, r3, r4, r5, r6, r7, r8⟩ := ih (t.remove c e.key m).2.2.1 _ (t.remove c e.key m).2.2.2 rest p1 q2' hnd' (by rw [p10]; omega)
+        rw [p10] at r6 r8
+        refine ⟨by simp [r1], r2, ?_, by simpa using r4, by rw [r5, p7], ?_, ?_, r8⟩
         · rw [r3, p2]
           unfold Map.erase
           rw [List.filter_filter]
@@ -377,7 +396,7 @@ theorem drive_spec (c : HCfg) (bs : List Bool) (t : HashTable) (it : HIter) (m :
 any program of `next`/`remove` steps (at most one removal per yielded entry) yields the entries of
 the walk in order — every entry exactly once when the program is long enough — the table ends up
 holding exactly the entries whose removal was not requested, and the next call reports the end. -/
-theorem iter_program (c : HCfg) (t : HashTable) (m : Mem) (bs : List Bool) (h : t.Inv c) (hl : t.size + 2 ≤ m.live) :
+theorem iter_program (c : HCfg) (t : HashTable) (m : Mem) (bs : List Bool) (h : t.Inv c) (hl : t.size + 2 ≤ liveOf m t.triple) :
     let it0 := (t.iterInit m).1
     let r := drive c bs t it0 m
     r.1 = t.buckets.flatten.take bs.length ∧ r.2.1.Inv c ∧
@@ -394,5 +413,148 @@ theorem iter_program (c : HCfg) (t : HashTable) (m : Mem) (bs : List Bool) (h : 
   rw [List.drop_of_length_le hlen] at d4
   exact (iterNext_spec c _ _ _ [] d2 d4).1 rfl
 
+
+
+/-! ### arbitrary iterator programs -/
+
+/-- iterator calls of a program -/
+inductive IterOp where
+  | next
+  | remove
+  deriving DecidableEq, Repr
+
+/-- what an iterator call returns: status, yielded entry (`next`), removed value (`remove`) -/
+abbrev IterOut := Stat × Option Entry × Option Nat
+
+/-- one iterator call on the model -/
+def iterStep (c : HCfg) (t : HashTable) (it : HIter) (op : IterOp) (m : Mem) : IterOut × HashTable × HIter × Mem :=
+  match op with
+  | .next => (((t.iterNext it m).1, (t.iterNext it m).2.1, none), t, (t.iterNext it m).2.2.1, (t.iterNext it m).2.2.2)
+  | .remove => (((t.iterRemove c it m).1, none, (t.iterRemove c it m).2.1), (t.iterRemove c it m).2.2.1,
+      (t.iterRemove c it m).2.2.2.1, (t.iterRemove c it m).2.2.2.2)
+
+/-- an arbitrary iterator program: any sequence of `next` and `remove` calls — `remove` before the
+first `next`, repeated `remove`, `remove` after END are all legal calls -/
+def iterRun (c : HCfg) : List IterOp → HashTable → HIter → Mem → List IterOut × HashTable × HIter × Mem
+  | [], t, it, m => ([], t, it, m)
+  | op :: ops, t, it, m =>
+    let s := iterStep c t it op m
+    let r := iterRun c ops s.2.1 s.2.2.1 s.2.2.2
+    (s.1 :: r.1, r.2)
+
+/-- the ideal cursor over a map: the entries still to yield and the entry last yielded, as long as it
+has not been removed through the cursor -/
+structure Cursor where
+  todo : List Entry
+  last : Option Entry
+
+/-- one call on the ideal cursor -/
+def Cursor.step (cur : Cursor) (mp : Map) : IterOp → IterOut × Cursor × Map
+  | .next =>
+    match cur.todo with
+    | [] => ((.iterEnd, none, none), cur, mp)
+    | e :: rest => ((.ok, some e, none), { todo := rest, last := some e }, mp)
+  | .remove =>
+    match cur.last with
+    | none => ((.errKeyNotFound, none, none), cur, mp)
+    | some e => ((.ok, none, some e.value), { cur with last := none }, Map.erase mp e.key)
+
+def Cursor.run (cur : Cursor) (mp : Map) : List IterOp → List IterOut × Cursor × Map
+  | [] => ([], cur, mp)
+  | op :: ops =>
+    let s := cur.step mp op
+    let r := Cursor.run s.2.1 s.2.2 ops
+    (s.1 :: r.1, r.2)
+
+/-- the C cursor stands where the ideal cursor stands -/
+def CurRel (t : HashTable) (it : HIter) (cur : Cursor) : Prop :=
+  ItInv t it cur.todo ∧ it.prev = cur.last.map (·.key) ∧ (cur.todo.map (·.key)).Nodup ∧
+  ∀ e, cur.last = some e → e ∈ t.buckets.flatten ∧ ∀ x ∈ cur.todo, x.key ≠ e.key
+
+theorem lookup_of_mem (c : HCfg) (t : HashTable) (h : t.Inv c) (e : Entry) (he : e ∈ t.buckets.flatten) :
+    Map.lookup t.abs e.key = some e.value := by
+  have wf : Map.WF t.abs := by unfold Map.WF; rw [abs_eq, keys_map_pair]; exact h.2.2.2.2.1
+  rw [Map.lookup_eq_some_iff _ wf]
+  exact List.mem_map.mpr ⟨e, he, rfl⟩
+
+/-- **one iterator call refines one call of the ideal cursor**, whatever the call -/
+theorem iterStep_refines (c : HCfg) (t : HashTable) (it : HIter) (op : IterOp) (m : Mem) (cur : Cursor)
+    (h : t.Inv c) (hr : CurRel t it cur) (hl : t.size + 2 ≤ liveOf m t.triple) :
+    (iterStep c t it op m).1 = (cur.step t.abs op).1 ∧
+    (iterStep c t it op m).2.1.abs = (cur.step t.abs op).2.2 ∧
+    (iterStep c t it op m).2.1.Inv c ∧
+    CurRel (iterStep c t it op m).2.1 (iterStep c t it op m).2.2.1 (cur.step t.abs op).2.1 ∧
+    (iterStep c t it op m).2.2.2.fault = m.fault ∧
+    liveOf (iterStep c t it op m).2.2.2 t.triple + t.size = liveOf m t.triple + (iterStep c t it op m).2.1.size ∧
+    (iterStep c t it op m).2.1.triple = t.triple ∧
+    ((iterStep c t it op m).1.1 ≠ .ok → (iterStep c t it op m).2 = (t, it, m)) := by
+  obtain ⟨r1, r2, r3, r4⟩ := hr
+  obtain ⟨todo, last⟩ := cur
+  simp only at r1 r2 r3 r4
+  cases op with
+  | next =>
+    obtain ⟨n1, n2⟩ := iterNext_spec c t it m todo h r1
+    cases todo with
+    | nil =>
+      have := n1 rfl
+      simp only [iterStep, Cursor.step, this]
+      exact ⟨trivial, trivial, h, ⟨r1, r2, r3, r4⟩, trivial, trivial, trivial, fun _ => trivial⟩
+    | cons e rest =>
+      obtain ⟨s1, s2, s3, s4, s5⟩ := n2 e rest rfl
+      simp only [iterStep, Cursor.step, s1, s2, s3]
+      refine ⟨trivial, trivial, h, ⟨s5, by simp [s4], (List.nodup_cons.mp r3).2, ?_⟩, trivial, trivial, trivial, fun hne => absurd rfl hne⟩
+      intro e' he'
+      simp only [Option.some.injEq] at he'
+      subst he'
+      refine ⟨ItInv_mem t it e rest r1, ?_⟩
+      intro x hx hxe
+      apply (List.nodup_cons.mp r3).1
+      have := List.mem_map_of_mem (f := fun x : Entry => x.key) hx
+      rw [hxe] at this; exact this
+  | remove =>
+    cases last with
+    | none =>
+      have hp : it.prev = none := by simpa using r2
+      simp only [iterStep, Cursor.step, iterRemove_no_prev c t it m hp]
+      exact ⟨trivial, trivial, h, ⟨r1, r2, r3, r4⟩, trivial, trivial, trivial, fun _ => trivial⟩
+    | some e =>
+      have hp : it.prev = some e.key := by simpa using r2
+      obtain ⟨he, hk⟩ := r4 e rfl
+      obtain ⟨⟨q11, q12, q13, q14, q15⟩, q2⟩ := iterRemove_spec c t it m todo e.key h r1 hp hk
+      have hlk := lookup_of_mem c t h e he
+      obtain ⟨p1, p2, p3, p4, p5, p6, p7, p8, p9, p10⟩ := remove_spec c t e.key m h (fun _ => by omega)
+      have hfound : (t.remove c e.key m).1 = .ok := by rw [p4, hlk]; rfl
+      obtain ⟨p6a, p6b⟩ := p6 hfound
+      simp only [iterStep, Cursor.step]
+      rw [q11, q12, q13, q14, q15, if_pos hfound, hfound, p3, hlk]
+      refine ⟨rfl, p2, p1, ⟨(ItInv_prev _ it todo none).mpr q2, rfl, r3, fun _ h => by cases h⟩, p7, by omega, p10, fun hne => absurd rfl hne⟩
+
+/-- **any iterator program refines the ideal cursor**: same statuses, yielded entries and removed
+values; the table then holds the cursor's map; invariant, no fault, balanced ledger -/
+theorem iterRun_refines (c : HCfg) (ops : List IterOp) (t : HashTable) (it : HIter) (m : Mem) (cur : Cursor)
+    (h : t.Inv c) (hr : CurRel t it cur) (hl : t.size + 2 ≤ liveOf m t.triple) :
+    (iterRun c ops t it m).1 = (cur.run t.abs ops).1 ∧
+    (iterRun c ops t it m).2.1.abs = (cur.run t.abs ops).2.2 ∧
+    (iterRun c ops t it m).2.1.Inv c ∧
+    CurRel (iterRun c ops t it m).2.1 (iterRun c ops t it m).2.2.1 (cur.run t.abs ops).2.1 ∧
+    (iterRun c ops t it m).2.2.2.fault = m.fault ∧
+    liveOf (iterRun c ops t it m).2.2.2 t.triple + t.size = liveOf m t.triple + (iterRun c ops t it m).2.1.size ∧
+    (iterRun c ops t it m).2.1.triple = t.triple := by
+  induction ops generalizing t it m cur with
+  | nil => exact ⟨rfl, rfl, h, hr, rfl, rfl, rfl⟩
+  | cons op ops ih =>
+    obtain ⟨s1, s2, s3, s4, s5, s6, s7, _⟩ := iterStep_refines c t it op m cur h hr hl
+    obtain ⟨i1, i2, i3, i4, i5, i6, i7⟩ := ih (iterStep c t it op m).2.1 (iterStep c t it op m).2.2.1
+      (iterStep c t it op m).2.2.2 (cur.step t.abs op).2.1 s3 s4 (by rw [s7]; omega)
+    rw [s7] at i6 i7
+    rw [s2] at i1 i2 i4
+    simp only [iterRun, Cursor.run]
+    refine ⟨by rw [s1, i1], i2, i3, i4, by rw [i5, s5], by omega, i7⟩
+
+/-- a fresh iterator stands where the ideal cursor over the whole walk stands -/
+theorem iterInit_curRel (c : HCfg) (t : HashTable) (m : Mem) (h : t.Inv c) :
+    CurRel t (t.iterInit m).1 ⟨t.buckets.flatten, none⟩ := by
+  obtain ⟨i1, _, i3⟩ := iterInit_spec c t m h
+  exact ⟨i1, by simp [i3], h.2.2.2.2.1, fun _ h => by cases h⟩
 
 end CC.HashTable
